@@ -28,7 +28,8 @@ TENSORS = [LS + "redfieldtensor.RedfieldRelaxationTensor", LS + "tdredfieldtenso
            LS + "foerstertensor.FoersterRelaxationTensor", LS + "tdfoerstertensor.TDFoersterRelaxationTensor",
            LS + "redfieldfoerster.RedfieldFoersterRelaxationTensor",
            LS + "tdredfieldfoerster.TDRedfieldFoersterRelaxationTensor",
-           LS + "rates.redfieldrates.RedfieldRateMatrix", LS + "rates.foersterrates.FoersterRateMatrix"]
+           LS + "rates.redfieldrates.RedfieldRateMatrix", LS + "rates.foersterrates.FoersterRateMatrix",
+           LS + "rates.tdredfieldrates.TDRedfieldRateMatrix"]
 
 # attributes a propagation call may leave written on the propagator, each with the rule that makes it harmless
 E2_TABLE = {
@@ -290,7 +291,8 @@ def rule_E3(run, prog, E):
             if f is None:
                 continue
             params = [a.arg for a in f.node.args.args if a.arg != "self"]
-            roots = [(x,) for x in params] + [("self", "Hamiltonian"), ("self", "SystemBathInteraction")]
+            hold = _input_holders(prog, cls) | {"Hamiltonian", "SystemBathInteraction"}
+            roots = [(x,) for x in params] + [("self", h) for h in sorted(hold)]
             judge(f, _scan(prog, E, f, roots))
     osys = prog.cls("quantarhei.builders.opensystem.OpenSystem")
     for name, f in osys.methods.items():
